@@ -36,10 +36,21 @@ def num_measure(self, c):
     return len(view(self.stream)) + (0 if c is None else 1)
 
 
+def _num_havoc(S, env):
+    # frame: the callee consumes input and may queue parse errors; nothing else changes
+    t = env.d["self"]
+    t.fields["stream"].fields["ghost_view"] = S.str("view'")
+    t.fields["tokenQueue"] = S.anylist("tokenQueue'", cls="deque")
+
+
 @contract(TOK + ".consumeNumberEntity")
 class ConsumeNumberEntity:
     props = ("C14",)
-    modular = False
+    havoc = _num_havoc
+    split_depth = 4
+
+    def result(S, env):
+        return S.str("char")
 
     def inputs(S):
         return dict(self=tokenizer(S), isHex=S.one_of(False, True))
@@ -54,18 +65,18 @@ class ConsumeNumberEntity:
     @ensures("C14")
     def value_is_the_standards(old, self, isHex, result, final):
         digits = "".join(final.charStack)
-        tail = view(old.self.stream)[len(digits):]
-        # digits is the maximal run of (hex) digits at the start of the input ...
-        if not (view(old.self.stream).startswith(digits) and digits != "" and in_chars(digits, allowed_of(isHex))
-                and (tail == "" or tail[0] not in allowed_of(isHex))):
+        v0 = view(old.self.stream)
+        rest = view(self.stream)
+        # digits is the maximal non-empty run of (hex) digits at the start of the input, and exactly
+        # the digits plus an optional ';' are consumed ...
+        if not (digits != "" and in_chars(digits, allowed_of(isHex))):
             return False
-        # ... it is read in the right base and decoded as the standard prescribes ...
-        if result != numeric_ref(int_value(digits, 16 if isHex else 10)):
+        if not ((v0 == digits + ";" + rest) or (v0 == digits + rest and not rest.startswith(";"))):
             return False
-        # ... and exactly the digits plus an optional ';' are consumed
-        if tail.startswith(";"):
-            return view(self.stream) == tail[1:]
-        return view(self.stream) == tail
+        if not (v0 != digits + rest or rest == "" or rest[0] not in allowed_of(isHex)):
+            return False
+        # ... and they are read in the right base and decoded as the standard prescribes
+        return result == numeric_ref(int_value(digits, 16 if isHex else 10))
 
     def call(i):
         from html5lib._tokenizer import HTMLTokenizer
@@ -81,3 +92,166 @@ class ConsumeNumberEntity:
             rest += ch
         i["observed_rest"] = rest
         return r
+
+
+# ---------------------------------------------------------------------------------------------------
+# consumeEntity: named references (and dispatch to the numeric function)
+from html.entities import html5 as ENTITIES
+from pyvc.contract import is_key_prefix, some_key_is_prefix_of, longest_key_prefix
+
+SPACE = "\t\n\x0c \r"
+ALNUM = "abcdefghijklmnopqrstuvwxyzABCDEFGHIJKLMNOPQRSTUVWXYZ0123456789"
+
+
+def ent_havoc(S, L):
+    last = S.one_of(None, lambda: S.char("last"))
+    L.charStack = S.charlist("scanned", tail=[last])
+    L.self.fields["stream"].fields["ghost_view"] = S.str("view@scan")
+
+
+def ent_inv(self, charStack, old):
+    scanned = "".join(charStack[:-1])
+    last = charStack[-1]
+    cur = "" if last is None else last
+    return (scanned + cur + view(self.stream) == view(old.self.stream)
+            and (last is not None or view(self.stream) == "")
+            and (scanned == "" or is_key_prefix(scanned)))
+
+
+def ent_measure(self, charStack):
+    return len(view(self.stream)) + (0 if charStack[-1] is None else 1)
+
+
+def attr_token(S):
+    """the start tag under construction with at least one attribute [name, value]"""
+    attrs = S.anylist("attrs", tail=[S.list([S.str("attrname"), S.str("attrvalue")])])
+    return S.dict({"type": 3, "name": S.str("tagname"), "data": attrs, "selfClosing": False})
+
+
+@contract(TOK + ".consumeEntity")
+class ConsumeEntity:
+    props = ("C14",)
+    modular = False
+    split_depth = 7
+
+    def inputs(S):
+        t = tokenizer(S)
+        fromAttribute = S.one_of(False, True)
+        allowed = S.one_of(None, lambda: S.char("allowedChar"))
+        if fromAttribute:
+            t.fields["currentToken"] = attr_token(S)
+        return dict(self=t, allowedChar=allowed, fromAttribute=fromAttribute)
+
+    def globals(S):
+        return {"html5lib._tokenizer.entitiesTrie": S.abstract_trie()}
+
+    loops = {"While1": LoopSpec(havoc=ent_havoc, invariant=ent_inv, decreases=ent_measure, props=("C14",))}
+
+    @ensures("C14")
+    def not_a_reference(old, self, allowedChar, fromAttribute, final):
+        # '&' followed by whitespace, '<', '&', end of input or the additional allowed character:
+        # the ampersand is literal and nothing is consumed
+        v = view(old.self.stream)
+        if v == "" or v[0] in SPACE or v[0] == "<" or v[0] == "&" or (allowedChar is not None and v[0] == allowedChar):
+            return final.output == "&" and view(self.stream) == v
+        return True
+
+    @ensures("C14")
+    def named_reference(old, self, allowedChar, fromAttribute, final):
+        v = view(old.self.stream)
+        if v == "" or v[0] in SPACE or v[0] == "<" or v[0] == "&" or v[0] == "#" or (allowedChar is not None and v[0] == allowedChar):
+            return True
+        scanned = "".join(final.charStack)
+        rest = view(self.stream)
+        # (1) nothing is lost: what was scanned is in `scanned`, the rest is back in the stream
+        if scanned + rest != v:
+            return False
+        # (2) the scan is maximal: every proper prefix can still become a name; the next character cannot extend it
+        if not (scanned == "" or is_key_prefix(scanned)):
+            return False
+        if not (rest == "" or not is_key_prefix(scanned + rest[0])):
+            return False
+        # (3) decoding: the longest name inside the scanned text, with the attribute-value exception
+        if not some_key_is_prefix_of(scanned):
+            return final.output == "&" + scanned
+        name = longest_key_prefix(scanned)
+        after = (scanned + rest)[len(name):]
+        if name[-1] != ";" and fromAttribute and after != "" and (after[0] in ALNUM or after[0] == "="):
+            return final.output == "&" + scanned
+        return final.output == ENTITIES[name] + scanned[len(name):]
+
+    @ensures("C14")
+    def numeric_without_digits(old, self, allowedChar, final):
+        v = view(old.self.stream)
+        if v.startswith("#") and (allowedChar is None or allowedChar != "#"):
+            if len(v) >= 2 and (v[1] == "x" or v[1] == "X"):
+                if len(v) >= 3 and v[2] in HEXDIGITS:
+                    return True
+                return final.output == "&" + v[:2] and view(self.stream) == v[2:]
+            if len(v) >= 2 and v[1] in DIGITS:
+                return True
+            return final.output == "&#" and view(self.stream) == v[1:]
+        return True
+
+    @ensures("C14")
+    def output_goes_to_the_right_place(old, self, fromAttribute, final):
+        if fromAttribute:
+            return self.currentToken["data"][-1][1] == old.self.currentToken["data"][-1][1] + final.output
+        return (len(self.tokenQueue) >= 1 and self.tokenQueue[-1]["data"] == final.output
+                and self.tokenQueue[-1]["type"] == (2 if final.output in ("\t", "\n", "\x0c", " ", "\r") else 1))
+
+    def candidates():
+        """real inputs shaped like the cases of the contract: every legacy (semicolon-less) name, alone and
+        continued by the first characters of longer names, followed by characters of each class"""
+        from html.entities import html5
+        keys = sorted(html5)
+        for n in keys:
+            if n.endswith(";"):
+                conts = [""]
+            else:
+                conts = sorted({k[len(n):len(n) + j] for k in keys if k.startswith(n) and len(k) > len(n) for j in (1, 2)} | {""})
+            for c in conts:
+                for x in ("", '"', "=", "q", "5", ";", " ", "<"):
+                    for fa in (False, True):
+                        yield {"self": {"stream": {"ghost_view": n + c + x}}, "allowedChar": '"' if fa else None,
+                               "fromAttribute": fa}
+
+    def call(i):
+        # lifted replay: run the real tokenizer method on the witness input and reconstruct the two
+        # internal values the clauses name (`output`, and the scanned characters) from observable effects
+        from html5lib._tokenizer import HTMLTokenizer
+        from collections import deque
+        from pyvc.contract import Old
+        v0 = i["self"]["stream"]["ghost_view"]
+        t = HTMLTokenizer(v0)
+        t.tokenQueue = deque([])
+        if i["fromAttribute"]:
+            t.currentToken = {"type": 3, "name": "a", "data": [["x", "seed"]], "selfClosing": False}
+        t.consumeEntity(allowedChar=i["allowedChar"], fromAttribute=i["fromAttribute"])
+        rest = ""
+        while True:
+            ch = t.stream.char()
+            if ch is None:
+                break
+            rest += ch
+        if i["fromAttribute"]:
+            output = t.currentToken["data"][-1][1][len("seed"):]
+        else:
+            output = [x for x in t.tokenQueue if x["type"] in (1, 2)][-1]["data"]
+        scanned = v0[:len(v0) - len(rest)]
+
+        class _S(object):
+            pass
+        stream = _S()
+        stream.is_abstract, stream.ghost_view = True, rest
+        me = _S()
+        me.stream, me.tokenQueue, me.currentToken = stream, list(t.tokenQueue), t.currentToken
+        old_stream = _S()
+        old_stream.is_abstract, old_stream.ghost_view = True, v0
+        old_me = _S()
+        old_me.stream = old_stream
+        old_me.currentToken = {"type": 3, "name": "a", "data": [["x", "seed"]], "selfClosing": False}
+        i["self"] = me
+        i["old"] = Old({"self": old_me})
+        i["final"] = Old({"output": output, "charStack": list(scanned)})
+        return None
